@@ -111,7 +111,12 @@ class MediaRequestBase(RequestHandlerBase):
         if err is not None:
             return err
 
-        atom = self.load_fragment(media, 0, options)
+        try:
+            atom = self.load_fragment(media, 0, options)
+        except Exception as err:  # pylint: disable=broad-except
+            # the stored file no longer matches its index (damaged or replaced)
+            logging.error('Failed to parse init segment of %s: %s', media.name, err)
+            return flask.make_response('Failed to parse media file', 404)
         if representation.encrypted:
             keys = models.Key.get_kids(representation.kids)
             drms = DrmContext(current_stream, keys, options)
@@ -176,9 +181,16 @@ class MediaRequestBase(RequestHandlerBase):
         assert isinstance(origin_time, int)
         assert mod_segment >= 0 and mod_segment <= representation.num_media_segments
 
-        atom = self.load_fragment(
-            media_file, mod_segment, options,
-            parse_samples=(adp_set.content_type == 'video' and options.videoCorruption))
+        try:
+            atom = self.load_fragment(
+                media_file, mod_segment, options,
+                parse_samples=(adp_set.content_type == 'video' and options.videoCorruption))
+            atom.moof.traf.tfhd  # pylint: disable=pointless-statement
+        except Exception as err:  # pylint: disable=broad-except
+            # the stored file no longer matches its index (damaged or replaced)
+            logging.error('Failed to parse segment %d of %s: %s',
+                          mod_segment, media_file.name, err)
+            return flask.make_response('Failed to parse media file', 404)
 
         moof_modified: bool = False
         traf_modified: bool = False
